@@ -198,3 +198,73 @@ fn check_positions_lex(text: &str, ext_import: bool, recs: &[crate::conv::PosRec
     }
     Ok(())
 }
+
+/// C16 part B: parse(print(A)) = A for every document nitrogql parses. Documents containing a string that
+/// hits an open printer finding (quote/backslash, line break) or a member-less `extend union` are skipped.
+pub fn print_roundtrip(text: &str) -> Result<(), Failure> {
+    use crate::model::*;
+    use nitrogql_parser::{parse_operation_document, parse_type_system_document};
+    if text.len() > 8192 || c08::nesting(text) > 64 {
+        return Ok(());
+    }
+    let g = glue();
+    let no_quote = g.excluded.contains("print_string_quote_backslash");
+    let no_multiline = g.excluded.contains("print_multiline_string");
+    let no_union_ext = g.excluded.contains("print_extend_union_directives_only");
+    let bad_string = |s: &String| (no_quote && (s.contains('"') || s.contains('\\'))) || (no_multiline && (s.contains('\n') || s.contains('\r')));
+    // block strings are returned raw by the parser (open finding C07-block-string-raw): what is printed back
+    // depends on that, so texts with block strings are left to the C07 finding
+    if text.contains("\"\"\"") && g.excluded.contains("block_string_cooked") {
+        return Ok(());
+    }
+    if guard(|| parse_operation_document(text).is_ok()).unwrap_or(false) {
+        let mut skip = false;
+        match crate::refparse::parse_op_doc(text) {
+            Ok(d) => {
+                let mut d2 = d;
+                map_op_strings(&mut d2, &mut |s: &mut String| skip |= bad_string(s));
+            }
+            Err(_) => skip = true,
+        }
+        match crate::props::c16::roundtrip_op(text) {
+            Ok((a, printed, b)) => {
+                if !skip && a != b {
+                    return Err(Failure::new("roundtrip-differs:op", format!("parse(print(A)) != A\nprinted: {printed}"), serde_json::json!({"text": text, "printed": printed})));
+                }
+            }
+            Err(f) => {
+                if !skip {
+                    return Err(f);
+                }
+            }
+        }
+    }
+    if guard(|| parse_type_system_document(text).is_ok()).unwrap_or(false) {
+        let parsed = crate::props::c16::roundtrip_ts(text);
+        // a printed text that does not parse is only excusable by an excluded feature
+        let mut skip = false;
+        if let Ok(d) = crate::refparse::parse_ts_doc(text) {
+            let mut d2 = d.clone();
+            map_ts_strings(&mut d2, &mut |s: &mut String| skip |= bad_string(s));
+            if no_union_ext && d.iter().any(|x| matches!(x, MTsDef::TypeExt(t) if t.kind == Kind::Union && t.members.is_empty())) {
+                skip = true;
+            }
+        } else {
+            // nitrogql accepts a text the reference parser rejects: not this target's business
+            skip = true;
+        }
+        match parsed {
+            Ok((a, printed, b)) => {
+                if !skip && a != b {
+                    return Err(Failure::new("roundtrip-differs:ts", format!("parse(print(A)) != A\nprinted: {printed}"), serde_json::json!({"text": text, "printed": printed})));
+                }
+            }
+            Err(f) => {
+                if !skip {
+                    return Err(f);
+                }
+            }
+        }
+    }
+    Ok(())
+}
